@@ -112,6 +112,27 @@ def table_defs():
               lambda w: tuple(((w[i]["x"], w[i]["y"]), (w[(i + 1) % 3]["x"], w[(i + 1) % 3]["y"])) for i in range(3))))
     T.append(("Triangle::from([c;3])", r"^<%striangle::Triangle<T> as core::convert::From<\[IC; 3\]>>::from$" % GT, [("array", (C(0), C(1), C(2)))], three, env3,
               lambda v: tuple(xy(v[k]) for k in ("0", "1", "2")), lambda w: tuple((c["x"], c["y"]) for c in w)))
+    # Triangle::new stores the vertices counter-clockwise (reversing a clockwise triple): also for small triangles far from the origin
+    # (UTM-like coordinates), where an orientation computed from ABSOLUTE coordinates is lost in rounding; reference in exact rationals
+    from fractions import Fraction as _Fr
+
+    def _tri_new_ref(w):
+        fr = [(_Fr(c["x"]), _Fr(c["y"])) for c in w]
+        o = (fr[1][0] - fr[0][0]) * (fr[2][1] - fr[0][1]) - (fr[1][1] - fr[0][1]) * (fr[2][0] - fr[0][0])
+        vs = [(c["x"], c["y"]) for c in w]
+        return tuple(vs) if o >= 0 else (vs[2], vs[1], vs[0])
+    far = []
+    for ox, oy in ((558513.001, 5341693.436), (547677.698, 4829587.718)):
+        a, b, c_ = {"x": ox, "y": oy}, {"x": ox + 0.02, "y": oy}, {"x": ox, "y": oy + 0.02}
+        far += [(a, b, c_), (a, c_, b), (b, c_, a), (c_, b, a)]
+    T.append(("Triangle::new", r"^%striangle::Triangle::<T>::new$" % GT, [C(0), C(1), C(2)], three + far, env3,
+              lambda v: tuple(xy(v[k]) for k in ("0", "1", "2")), _tri_new_ref))
+    # Coord == Coord compares the ordinates themselves: also for integers beyond 2^53, which a comparison through f64 would merge
+    big = 2 ** 53
+    eqw = [(a, b) for a in GRID[:4] for b in GRID[:4]] + [({"x": big, "y": big}, {"x": big + 1, "y": big}), ({"x": big, "y": big + 1}, {"x": big, "y": big}),
+                                                      ({"x": big + 1, "y": -big}, {"x": big + 1, "y": -big}), ({"x": -big - 1, "y": 0}, {"x": -big, "y": 0})]
+    T.append(("Coord::eq", r"^<%scoord::Coord<T> as core::cmp::PartialEq>::eq$" % GT, [("&", C(0)), ("&", C(1))], eqw, env2, bool,
+              lambda w: w[0]["x"] == w[1]["x"] and w[0]["y"] == w[1]["y"]))
     # operator impls of Coord
     for op, ref in (("add", lambda a, b: (a["x"] + b["x"], a["y"] + b["y"])), ("sub", lambda a, b: (a["x"] - b["x"], a["y"] - b["y"]))):
         T.append(("Coord::%s" % op, r"^<%scoord::Coord<T> as core::ops::arith::%s>::%s$" % (GT, op.capitalize(), op), [C(0), C(1)], two, env2, xy, lambda w, ref=ref: ref(w[0], w[1])))
@@ -165,7 +186,7 @@ def run(rep, F, rule, select=None):
         else:
             n += 1
             rep.ok(rule, "gt:%s[%d witnesses]" % (key, k))
-    rep.floor(rule, "accessor tables", n, len(select) if select else 29)
+    rep.floor(rule, "accessor tables", n, len(select) if select else 31)
 
 
 def fmtw(w):
